@@ -7,7 +7,7 @@ import vlib
 from props import fam_map as F
 
 
-MANIFEST = {'technique': 'Coq proof (C remainder/index lemmas for all integers, set-up permutation for all headers/axis orders/extents, scaled operations in range for all table rows and compatible grid sizes) + exact differential check + oracles on gemmi', 'text': 'Theorems: modulo a n = a mod n for every a (n > 0) with C remainder semantics; index_n exact on [-n, 2n) and wrong outside it; index_s total; for all 564 rows of the regenerated table and EVERY grid size accepted by check_grid_factors each scaled operation maps in-grid points into [-n, 2n) (kernel-evaluated checker, soundness proved for all sizes and points); axis_positions accepts exactly the six permutations; in all three set-up modes, for each axis order, any start and any extent, file voxel (c,r,s) lands at grid[(start+crs) permuted mod sampling] and uncovered voxels hold the default - hence the axis order of the file does not change the map. Exact correspondence on all rows (grid factors, scaled operations, written header words), hand-made files in 6 axis orders x modes 0/1/2/6 x 2 byte orders x 3 set-up modes; oracles on gemmi: write->read identity (file, memory, other byte order), permuted / ASU-box files expand to the invariant full grid, ASU mask marks one point per orbit, every symmetrize_* makes the grid invariant and is idempotent. NOT theorems (oracle only): orbit fill, idempotence/invariance of the symmetrisation functions, ASU mask, float header words.', 'note': 'Trusted: Coq kernel + vm_compute; table translator; extraction; harness. No axioms. Voxel values are small integers (exact in every mode); find_asu_brick is not re-implemented (its result is an input of the mask model).'}
+MANIFEST = {'technique': 'Coq proof (C remainder/index lemmas for all integers, set-up permutation for all headers/axis orders/extents, scaled operations in range for all table rows and compatible grid sizes) + exact differential check + oracles on gemmi', 'text': 'Theorems: modulo a n = a mod n for every a (n > 0) with C remainder semantics; index_n exact on [-n, 2n) and wrong outside it; index_s total; for all 564 rows of the regenerated table and EVERY grid size accepted by check_grid_factors each scaled operation maps in-grid points into [-n, 2n) (kernel-evaluated checker, soundness proved for all sizes and points); axis_positions accepts exactly the six permutations; in all three set-up modes, for each axis order, any start and any extent, file voxel (c,r,s) lands at grid[(start+crs) permuted mod sampling] and uncovered voxels hold the default - hence the axis order of the file does not change the map. Exact correspondence on all rows (grid factors, scaled operations, written header words), hand-made files in 6 axis orders x modes 0/1/2/6 x 2 byte orders x 3 set-up modes; oracles on gemmi: write->read identity (file, memory, other byte order), permuted / ASU-box files expand to the invariant full grid, Ccp4::set_extent (ASU brick and random boxes, also beyond the cell) keeps exactly the grid points inside the box and its file expands back to the map it was cut from, ASU mask marks one point per orbit, every symmetrize_* makes the grid invariant and is idempotent. NOT theorems (oracle only): orbit fill, idempotence/invariance of the symmetrisation functions, ASU mask, float header words.', 'note': 'Trusted: Coq kernel + vm_compute; table translator; extraction; harness. No axioms. Voxel values are small integers (exact in every mode); find_asu_brick is not re-implemented (its result is an input of the mask model).'}
 
 def gen_cases(rng, h, info, quick):
     lines = []
@@ -47,6 +47,15 @@ def gen_cases(rng, h, info, quick):
         for which in range(6):
             lines.append('o_symm\t%d %d %d %d %d %d' % (which, ri['row'], *n, rng.randint(0, 99)))
         lines.append('o_asu\t%d %d %d %d' % (ri['row'], *n))
+    # the ASU brick and mask of EVERY tabulated setting, also in the quick tier (a defect in find_asu_brick
+    # typically concerns a handful of settings), and the file cut to the ASU box for every storable one
+    sampled = set(ri['row'] for ri in sample)
+    for ri in info:
+        if ri['row'] not in sampled:
+            n = F.compatible_size(rng, ri, small=True)
+            lines.append('o_asu\t%d %d %d %d' % (ri['row'], *n))
+            if ri['storable']:
+                lines.append('o_extent\t%d %d %d %d %d 9999 0 0 0 0 0' % (ri['row'], *n, rng.randint(0, 99)))
     # ---- setup(): hand-made files, every axis order / mode / byte order / set-up mode
     stor = F.pick_rows(rng, info, 30 if quick else 400, storable=True)
     for ri in stor:
@@ -84,6 +93,12 @@ def gen_cases(rng, h, info, quick):
             if quick and rng.random() < 0.5:
                 continue
             lines.append('o_wr\t%s %d %d %d %d %d %d' % (T, ri['row'], *n, mode, rng.randint(0, 99)))
+        # Ccp4::set_extent: the ASU brick, and random boxes (also beyond the cell and with negative corners)
+        lines.append('o_extent\t%d %d %d %d %d 9999 0 0 0 0 0' % (ri['row'], *n, rng.randint(0, 99)))
+        for _ in range(1 if quick else 4):
+            lo = [rng.choice([0, -1, rng.randint(-600, 400), -rng.randint(0, 3) * 125]) for _ in range(3)]
+            hi = [lo[i] + rng.choice([rng.randint(50, 1500), 1000, 999, 500, 1001]) for i in range(3)]
+            lines.append('o_extent\t%d %d %d %d %d %d %d %d %d %d %d' % (ri['row'], *n, rng.randint(0, 99), *lo, *hi))
     return lines, bricks
 
 
